@@ -20,8 +20,18 @@ Proved here, for EVERY oracle `o` (every pattern of failing requests), every sta
                             capacity covers its size, every section buffer has room for its bytes, and no `append_unchecked`
                             / buffer write ever ran without room (histories of total weight < 2^40, far beyond memory)
 * `reserve_gives_room`, `reserve_ok_has_room`, `reserve_fail_keeps`   the reserve-then-append discipline of one reservation
+Round 3 (second part of this file), again for every oracle:
+* `pool_add_nofault_is_c19`, `pool_add_fail_atomic`, `pool_add_retry_equal`   `ConstPool::add` (repaired order, Model/FaultPool):
+                            with no failure it IS C19's `ConstPool.add` (C19's theorems are about it); an add answered out of
+                            memory changed nothing at all; repeating it with memory available is C19's add on the old pool
+* `hash_insert_any_oracle`, `hash_rehash_refused_degrades`, `hash_insert_nofault_is_c18`   `ArenaHash::_insert/_rehash`
+* `bits_resize_fail_atomic`, `bits_resize_nofault_is_c18`   `ArenaBitSet::_resize`
+* `new_block_fail_atomic`, `jit_add_fail_atomic`, `jit_add_ok`   `JitAllocator_new_block` (plain and dual mapping) and
+                            `JitRuntime::_add` as resource models: a failure leaves no mapping / descriptor / record / span behind
 -/
 import AsmjitVerif.Lemmas.FaultInv
+import AsmjitVerif.Lemmas.FaultPool
+import AsmjitVerif.Lemmas.FaultMore
 namespace AsmjitVerif.Fault
 open AsmjitVerif
 
@@ -102,6 +112,92 @@ theorem reserve_fail_keeps (o o1 : Oracle) (size cap n item c : Nat)
   · rw [h1] at h; cases h
   · rw [h1] at h; cases h; exact ⟨rfl, req_true_faults _ _ hr⟩
   · rw [h1] at h; cases h
+
+/-! ## ConstPool::add, ArenaHash, ArenaBitSet, JitAllocator blocks under the oracle -/
+
+/-- `pool_add_nofault_is_c19`: with the oracle that never fails `addF` is exactly C19's `ConstPool.add` -/
+theorem pool_add_nofault_is_c19 (s : FaultPool.FPool) (data : ConstPool.Bytes) :
+    (FaultPool.addF [] s data).1 = [] ∧ (FaultPool.addF [] s data).2.1.p = (ConstPool.add s.p data).1 ∧
+    (FaultPool.addF [] s data).2.2 = FaultPool.ofResult (ConstPool.add s.p data).2 :=
+  FaultPool.addF_nofault s data
+
+/-- `pool_add_fail_atomic`: under every oracle an add answered out of memory changed nothing (trees, gaps, size, alignment,
+gap free list) and consumed an injected failure -/
+theorem pool_add_fail_atomic (o o' : Oracle) (s s' : FaultPool.FPool) (data : ConstPool.Bytes)
+    (h : FaultPool.addF o s data = (o', s', .oom)) : s' = s ∧ faults o' < faults o :=
+  ⟨FaultPool.addF_fail_atomic o o' s s' data h, FaultPool.addF_oom_consumes o o' s s' data h⟩
+
+/-- `pool_add_retry_equal`: repeating a failed add once memory is available gives exactly what C19's add gives on the pool
+before the failure: same pool, same offset -/
+theorem pool_add_retry_equal (o o' : Oracle) (s s' : FaultPool.FPool) (data : ConstPool.Bytes)
+    (h : FaultPool.addF o s data = (o', s', .oom)) :
+    (FaultPool.addF [] s' data).2.1.p = (ConstPool.add s.p data).1 ∧
+    (FaultPool.addF [] s' data).2.2 = FaultPool.ofResult (ConstPool.add s.p data).2 := by
+  rw [FaultPool.addF_fail_atomic o o' s s' data h]
+  exact (FaultPool.addF_nofault s data).2
+
+/-- `hash_insert_any_oracle`: whatever the oracle answers to the rehash request, `_insert` keeps every node reachable and adds
+exactly the node -/
+theorem hash_insert_any_oracle (o : Oracle) (a : Arena.State) (t : Hash.Table) (n : Hash.Node) (hw : Hash.WF t)
+    (hh : n.hash < 2 ^ 32) (hfresh : n.uid ∉ (Hash.allNodes t).map Hash.Node.uid) :
+    Hash.WF (FaultMore.hashInsertF o a t n).2.2.1 ∧
+    (Hash.allNodes (FaultMore.hashInsertF o a t n).2.2.1).Perm (n :: Hash.allNodes t) :=
+  FaultMore.hashInsertF_spec o a t n hw hh hfresh
+
+/-- `hash_rehash_refused_degrades`: a refused rehash leaves the linked table and the arena as they are -/
+theorem hash_rehash_refused_degrades (o : Oracle) (a : Arena.State) (t : Hash.Table) (n : Hash.Node)
+    (h : (FaultMore.hashInsertF o a t n).2.2.2 = true) :
+    (FaultMore.hashInsertF o a t n).2.2.1 = FaultMore.hashLink t n ∧ (FaultMore.hashInsertF o a t n).2.1 = a ∧
+    faults (FaultMore.hashInsertF o a t n).1 < faults o :=
+  FaultMore.hashInsertF_refused o a t n h
+
+theorem hash_insert_nofault_is_c18 (a : Arena.State) (t : Hash.Table) (n : Hash.Node) :
+    (FaultMore.hashInsertF [] a t n).1 = [] ∧
+    ((FaultMore.hashInsertF [] a t n).2.1, (FaultMore.hashInsertF [] a t n).2.2.1) = Hash.insert a t n ∧
+    (FaultMore.hashInsertF [] a t n).2.2.2 = false :=
+  FaultMore.hashInsertF_nofault a t n
+
+/-- `bits_resize_fail_atomic`: a `_resize` whose arena request is refused answers kOutOfMemory with arena and bit set untouched -/
+theorem bits_resize_fail_atomic (o o1 : Oracle) (a : Arena.State) (b : Bits.BitSet) (newSize ideal : Nat) (v : Bool)
+    (hn : FaultMore.bitsNeedsAlloc b newSize ideal = true) (hr : req o = (true, o1)) :
+    FaultMore.bitsResizeF o a b newSize ideal v = (o1, some (a, b, .oom)) :=
+  FaultMore.bitsResizeF_fail_atomic o o1 a b newSize ideal v hn hr
+
+theorem bits_resize_nofault_is_c18 (a : Arena.State) (b : Bits.BitSet) (newSize ideal : Nat) (v : Bool) :
+    FaultMore.bitsResizeF [] a b newSize ideal v = ([], Bits.resizeI a b newSize ideal v) :=
+  FaultMore.bitsResizeF_nofault a b newSize ideal v
+
+/-- `new_block_fail_atomic`: a failed `JitAllocator_new_block` (plain or dual mapping, any failing request) leaves no mapping,
+descriptor or record behind; a successful one owns exactly its mappings and its record -/
+theorem new_block_fail_atomic (dual : Bool) (o : Oracle) (r : FaultMore.Res) :
+    ((FaultMore.newBlockF dual o r).2.2 = false →
+      (FaultMore.newBlockF dual o r).2.1 = r ∧ faults (FaultMore.newBlockF dual o r).1 < faults o) ∧
+    ((FaultMore.newBlockF dual o r).2.2 = true →
+      (FaultMore.newBlockF dual o r).2.1 = { r with maps := r.maps + (if dual then 2 else 1), heap := r.heap + 1 }) :=
+  FaultMore.newBlockF_spec dual o r
+
+/-- `jit_add_fail_atomic`: a failed `JitRuntime::_add` holds no span and no stray resource -/
+theorem jit_add_fail_atomic (dual needBlock relocAllocs : Bool) (o : Oracle) (r : FaultMore.Res) (spans : Nat)
+    (h : (FaultMore.jitAddF dual needBlock relocAllocs o r spans).2.2.2 = false) :
+    (FaultMore.jitAddF dual needBlock relocAllocs o r spans).2.2.1 = spans ∧
+    ((FaultMore.jitAddF dual needBlock relocAllocs o r spans).2.1 = r ∨
+     (needBlock = true ∧ (FaultMore.jitAddF dual needBlock relocAllocs o r spans).2.1 =
+        { r with maps := r.maps + (if dual then 2 else 1), heap := r.heap + 1 })) :=
+  FaultMore.jitAddF_fail dual needBlock relocAllocs o r spans h
+
+theorem jit_add_ok (dual needBlock relocAllocs : Bool) (o : Oracle) (r : FaultMore.Res) (spans : Nat)
+    (h : (FaultMore.jitAddF dual needBlock relocAllocs o r spans).2.2.2 = true) :
+    (FaultMore.jitAddF dual needBlock relocAllocs o r spans).2.2.1 = spans + 1 :=
+  FaultMore.jitAddF_ok dual needBlock relocAllocs o r spans h
+
+-- non-vacuity
+/-- the second mmap of a dual-mapped block fails: nothing is left (the first mapping is unmapped, the descriptor closed) -/
+example : FaultMore.newBlockF true [false, false, false, true] {} = ([], {}, false) := by decide
+example : (FaultMore.newBlockF true [] {}).2.1 = { maps := 2, fds := 0, heap := 1 } := by decide
+/-- relocation fails after a new block was mapped for the span: no span, the block is owned by the allocator -/
+example : FaultMore.jitAddF false true true [false, false, true] {} 0 = ([], { maps := 1, fds := 0, heap := 1 }, 0, false) := by decide
+/-- a failed node request of ConstPool::add, then the repetition -/
+example : (FaultPool.addF [true] {} [1#8, 2#8]).2.2 = .oom ∧ (FaultPool.addF [] {} [1#8, 2#8]).2.2 = .ok 0 := by decide
 
 -- non-vacuity: concrete fault patterns on the initial state
 /-- the only request of this `new_section` (the Section object; both vectors still have room) fails -/
